@@ -69,6 +69,24 @@ ODD_TYPES = (StreamClosed, StopAsyncIteration, StopIteration, GeneratorExit, Key
              TimeoutError)
 
 
+class Blank:
+    """payload whose truth value is false and that is equal to itself only (an empty record, an
+    empty batch): still a message like any other"""
+    __slots__ = ('ident',)
+
+    def __init__(self, ident):
+        self.ident = ident
+
+    def __bool__(self):
+        return False
+
+    def __len__(self):
+        return 0
+
+    def __repr__(self):
+        return 'Blank(%s)' % self.ident
+
+
 def odd(ident):
     """payloads that are exception *instances* - among them the very types that streams use
     internally to signal their end: as a payload they are values like any other"""
@@ -78,7 +96,7 @@ def odd(ident):
 
 
 def unwrap(payload):
-    if isinstance(payload, (Twin, BaseException)):
+    if isinstance(payload, (Twin, Blank, BaseException)):
         return payload.ident
     return payload
 
@@ -350,6 +368,8 @@ def build_for(case):
         arena.start = case.get('start', 0)
         queue = inject.made(case, Queue)
         wrap = Twin if case.get('twins') else odd if case.get('odd') else str
+        if wrap is str and case['index'] % 3 == 1:
+            wrap = Blank
         if case.get('nones'):
             # every other item is None (a valid item: it must not look like 'nothing there')
             def wrap(item, plain=wrap):
